@@ -41,20 +41,18 @@ def gen_behaviours(ctx, design):
     out = [{"align": 2, "unit": 1, "steps": keys[k], "cover": 1} for k in sorted(keys) if keys[k]]
     ctx.cov["transitions_covered_by_replay"] = len(keys)
     # random deeper sequences (larger requests, more alignments, writes through slices)
-    nsim = 1500 if ctx.tier == "thorough" else 60
-    g = ctx.tlc("mc/MC_PoolAlgo.tla", "mc/PoolAlgo_sim.cfg", workers=4, simulate=nsim, depth=13, timeout=3000)
+    nsim = 4000 if ctx.tier == "thorough" else 250
+    g = ctx.tlc("mc/MC_PoolAlgo.tla", "mc/PoolAlgo_sim.cfg", workers=1, simulate=nsim, depth=14, timeout=3000)
     bs = b_json(g)
     if not bs:
         raise Broken("no behaviours from simulation:\n%s" % tail(g.out, 30))
-    # the simulator prints every successor of the last state: keep at most 3 per 11-step prefix
-    rnd = random.Random(ctx.seed)
-    groups = {}
+    seen = set()
     for b in bs:
-        groups.setdefault(json.dumps(b[:-1], sort_keys=True), []).append(b)
-    for k in sorted(groups):
-        g_ = groups[k]
-        rnd.shuffle(g_)
-        out += [{"align": 4, "unit": 1, "steps": b} for b in g_[:3]]
+        k = json.dumps(b, sort_keys=True)
+        if k not in seen:
+            seen.add(k)
+            out.append({"align": 4, "unit": 1, "steps": b})
+    ctx.cov["simulated_sequences"] = len(seen)
     # the same shapes at the default alignment (128) with sizes that are not multiples of it
     rnd = random.Random(ctx.seed + 1)
     extra = rnd.sample(out, min(len(out), 1500 if ctx.tier == "quick" else 8000))
